@@ -41,6 +41,18 @@ def check_case(run, case):
         if not ks:
             run.inconc('no keyspace listed'); return
         top = max(ks)
+        # the saved probability of every listed level against the number of training passwords the files put on that level - before any enumeration, so that
+        # models too large to enumerate are judged on this part
+        for L, k in sorted(ks.items()):
+            if k <= 0:
+                continue
+            exp = (per_ref.get(L, 0) / Npw) / k
+            if L in probs and abs(probs[L] - exp) > 1e-12 * max(exp, 1e-300):
+                run.violation(f'level {L}: pcfg_omen_prob is {probs.get(L)!r}, expected (training passwords at that level / N) / keyspace = ({per_ref.get(L, 0)}/{Npw})/{k}; '
+                              f'the per-level file of the trainer says {per.get(L)}', case, observed={'levels_listed': sorted(ks)[:20]}); return
+            run.ev('level_probabilities_compared')
+        if per_ref.get(top):
+            run.ev('lists_with_a_password_on_the_top_listed_level')
         try:
             ref = model.all_levels(top, cap=200000)
             where, per_level = c11.guesser_levels(path, top, cap=200000)
@@ -126,6 +138,53 @@ def check_interrupted(run, case):
     finally:
         cleanup()
 
+def flat_length_case(rng):
+    """Eight lengths, each an eighth of the list: no length is frequent enough for length level 0 or 1, so level 1 is not listed (the listed levels are 2..18, seventeen
+    of them), and some 240 rare variants (one to five letters changed, multiplicities 1-15) spread over the higher levels, the top one among them."""
+    words = ['abcde', 'bcdefa', 'cdefabc', 'defabcde', 'efabcdefa', 'fabcdefabc', 'abcdefabcde', 'bcdefabcdefa']
+    items = [[w, 1000] for w in words]
+    rare = set()
+    letters = 'abcdefxyz'
+    while len(rare) < 240:
+        w = list(rng.choice(words))
+        for _ in range(rng.randint(1, 5)):
+            w[rng.randrange(len(w))] = rng.choice(letters)
+        rare.add(''.join(w))
+    items += [[w, rng.choice([1, 1, 1, 2, 3, 6, 15])] for w in sorted(rare) if w not in words]
+    rng.shuffle(items)
+    return {'items': items, 'encoding': 'ascii', 'ngram': rng.choice([3, 4]), 'max_len': 21, 'alphabet': 100, 'coverage': 0.6, 'hseed': rng.getrandbits(32), 'prefixcount': True, 'flat_lengths': True}
+
+def check_flat(run, case):
+    """The flat-length list, completed - if it does not hold one yet - by a password that the trained model puts on the top listed level (found by scoring
+    mutations of the list's words with the reference reading of the files; one more password among 8000 leaves the model where it was)."""
+    import random
+    rng = random.Random(case['hseed'])
+    name, path, res = trained.train_case(case, 'c18f')
+    try:
+        if not res.ok:
+            run.inconc('training did not complete'); return
+        enc = case['encoding']
+        ks = {int(v): int(p_) for v, p_ in oracles.read_rows(os.path.join(path, 'Omen', 'omen_keyspace.txt'), enc)}
+        model = oracles.OmenModel(os.path.join(path, 'Omen'))
+        top = max(ks)
+        have = {model.level(pw) for pw in res.passes[0]['yielded']}
+        extra = []
+        if top not in have:
+            words = [p_ for p_, k in case['items'] if k >= 1000]
+            for _ in range(20000):
+                w = list(rng.choice(words))
+                for _k in range(rng.randint(1, 5)):
+                    w[rng.randrange(len(w))] = rng.choice('abcdefxyz')
+                w = ''.join(w)
+                if model.level(w) == top:
+                    extra.append(w)
+                    if len(extra) >= 2:
+                        break
+    finally:
+        repo.drop_rules(name)
+    case2 = dict(case, items=case['items'] + [[w, 1] for w in extra])
+    check_case(run, case2)
+
 def run(run, rng):
     run.required_events = ['levels_compared', 'retrained_in_place_with_other_options']
     run.min_distinct = 10
@@ -134,6 +193,9 @@ def run(run, rng):
     if run.shard[0] == 0 or run.tier == 'thorough':
         run.ev('many_prefix_lists')
         run.guard(many_prefix_case(rng), check_case, seconds=600)
+    if run.shard[0] == 2 % run.shard[1]:
+        run.ev('flat_length_lists')
+        run.guard(flat_length_case(rng), check_flat, seconds=600)
     if run.shard[0] == 1 % run.shard[1]:
         run.guard({'interrupted': True, 'seed': rng.getrandbits(32), 'n_lines': 6000, 'ngram': rng.choice([3, 4]), 'points': 16 if run.tier == 'quick' else 60}, check_interrupted, seconds=600)
     for i in range(N[run.tier]):
@@ -153,7 +215,9 @@ def run(run, rng):
         run.guard(case, check_case, seconds=240)
 
 def replay(run, case):
-    if case['case'].get('interrupted'):
+    if case['case'].get('flat_lengths'):
+        check_flat(run, case['case'])
+    elif case['case'].get('interrupted'):
         check_interrupted(run, case['case'])
     else:
         check_case(run, case['case'])
